@@ -29,6 +29,19 @@ def run_multi(cases, workdir, threads=1, shards=8):
     return engine.split_cases(out)
 
 
+def problems(prefix, cases, got, extra=None):
+    """a panic on an engine task (the scheduler loop dies with it) or work that never drains, as violations"""
+    out = []
+    for c in cases:
+        for l in got.get(c['id'], []):
+            if l.startswith(('PANIC ', 'HUNG')):
+                loc = l.split(' ')[1] if l.startswith('PANIC ') else 'hung'
+                out.append({'class': f"{prefix}:engine_panic:{loc}" if l.startswith('PANIC') else f"{prefix}:engine_hung",
+                            'detail': f"case {c['id']}: {l} -- the engine stopped serving every process of the group",
+                            'case': dict({'kind': 'multi', 'case': c}, **(extra or {}))})
+    return out
+
+
 def corpus_members(tier, seed):
     """cases of the engine corpus usable as members of a loaded run: no ticks, no timeout rules, moderate size"""
     res = engine.build(tier, seed)
@@ -117,13 +130,35 @@ def run_c13(tier, seed, workdir):
             j = r.below(i + 1)
             order[i], order[j] = order[j], order[i]
         ops = order + interleave(r, seqs)
-        dup = r.pick(starts)
-        ops.insert(len(order) + r.below(max(1, len(ops) - len(order))), dict(dup, dup=True))
+        keep = g % 3 == 2
+        # a second start of a pid is refused while that pid is live (or kept): without keep_processes only a
+        # process that never ends in this history is certainly live at the time of the duplicate
+        never_ends = [st for st in starts if not any(l.startswith('P ') and l.split(' ')[1] in TERM for l in solo.get(meta[(g, st['pid'])]['case']['id'], []))]
+        dup_from = starts if keep else never_ends
+        if dup_from:
+            dup = r.pick(dup_from)
+            ops.insert(len(order) + r.below(max(1, len(ops) - len(order))), dict(dup, dup=True))
         cap = [0, 1, 2, 3][g % 4]
-        cases.append({'id': f"g{g}", 'cfg': {'keep': True, 'cache_cap': cap}, 'models': models, 'procs': procs, 'ops': ops})
+        # the default configuration drops a process when it ends; a third of the groups keep them
+        cases.append({'id': f"g{g}", 'cfg': {'keep': keep, 'cache_cap': cap}, 'models': models, 'procs': procs, 'ops': ops})
     violations, stats = [], {'groups': ngroups, 'processes': sum(len(c['procs']) for c in cases), 'cache_caps': Counter(c['cfg']['cache_cap'] for c in cases), 'ordered_equal': 0, 'outcome_equal': {}}
+    # the solo traces of the corpus run were taken with keep_processes on; for the groups that run with the default
+    # configuration the same cases are run alone under that configuration (one process per engine)
+    alone, solo_drop = {}, {}
+    for g, c in enumerate(cases):
+        if not c['cfg']['keep']:
+            for pid in c['procs']:
+                m = meta[(g, pid)]['case']
+                if m['id'] not in alone:
+                    alone[m['id']] = {'id': f"a-{m['id']}", 'cfg': {'keep': False, 'cache_cap': 0}, 'models': [m['wf']], 'procs': {'p0': 0},
+                                      'ops': [{'start': 0, 'pid': 'p0'}] + [dict(p='p0', t=o['t'], a=o['a'], o=o['o']) for o in m['ops']]}
+    if alone:
+        got1 = run_multi(list(alone.values()), os.path.join(workdir, 'alone'))
+        violations += problems('13', list(alone.values()), got1, {'threads': 1})
+        solo_drop = {mid: got1.get(f"a-{mid}/p0", []) for mid in alone}
     for threads in ([1] if tier == 'quick' else [1, 4, 8]):
         got = run_multi(cases, os.path.join(workdir, f't{threads}'), threads=threads)
+        violations += problems('13', cases, got, {'threads': threads})
         same = 0
         for g, c in enumerate(cases):
             # the duplicate start is refused: every pid has exactly one accepted start
@@ -131,7 +166,8 @@ def run_c13(tier, seed, workdir):
                 key = f"g{g}/{pid}"
                 lines = got.get(key, [])
                 member = meta[(g, pid)]['case']
-                expect = [notime(l) for l in solo.get(member['id'], []) if l.split(' ')[0] in ('N', 'T', 'M', 'P', 'A')]
+                base = solo.get(member['id'], []) if c['cfg']['keep'] else solo_drop.get(member['id'], [])
+                expect = [notime(l) for l in base if l.split(' ')[0] in ('N', 'T', 'M', 'P', 'A')]
                 have = [notime(l) for l in lines if l.split(' ')[0] in ('N', 'T', 'M', 'P', 'A')]
                 starts_ok = [l for l in lines if l.startswith('S ')]
                 cls = None
@@ -198,7 +234,7 @@ def run_c17(tier, seed, workdir):
     got = run_multi(cases, os.path.join(workdir, 'run'))
     obs_path = os.path.join(workdir, 'obs.txt')
     keys = {}
-    violations = []
+    violations = problems('17', cases, got)
     stats = Counter()
     with open(obs_path, 'w') as f:
         for c in cases:
@@ -369,7 +405,7 @@ def run_c15(tier, seed, workdir):
     text = {1501: "the calling act was closed before the child process ended", 1502: "the calling act was not closed exactly once with the state the child's ending maps to",
             1503: "the calling act does not carry the child's outputs", 1504: "the child did not start with exactly the inputs of the call",
             1505: "the parent's terminal event precedes the child's (or comes without it)", 1506: "a missing target model left the calling act open"}
-    violations, ok = [], 0
+    violations, ok = problems('15', cases, got), 0
     obs = {l.split(' ')[1]: l for l in open(obs_path)}
     for l in out.splitlines():
         p = l.split(' ')
